@@ -269,12 +269,6 @@ def _replay_convert(d, clause, model, seed):
     return {"ran": True, "failed": False, "searched": n}
 
 
-UNITS = [ConvertConfiguration()]
-
-MANIFEST = {
-    "text": "TBD",
-    "note": "TBD",
-}
 
 
 # =====================================================================================================
@@ -589,9 +583,328 @@ def _replay_cal(d, clause, seed):
         shutil.rmtree(tmp, ignore_errors=True)
 
 
-UNITS = [ConvertConfiguration(), CalNeighbors()]
+# =====================================================================================================
+# VolumeMatrix
+
+
+class VMWorld:
+    """the statement's objects for VolumeMatrix at frame s = nconfig: the centred points P, the tessellated systems of the
+    unperturbed frame and of the frame with coordinate (i, j) displaced by +-deltar (built by the SAME array operations the
+    statement describes — x += d; x -= 2 d — so that the lifted systems carry the canonical names of pyvc/libext/C20.py)"""
+
+    def __init__(self, tr, d, s, dr):
+        from pyvc.libext.C20 import FreudBox
+        self.tr, self.d, self.s, self.dr = tr, d, s, dr
+        self.N = tr.N
+        self.box = FreudBox([tr.bl(s, c) for c in range(d)])
+        self._memo = {}
+
+    def P(self, idx):
+        c = idx[1]
+        if not sv.is_conc(c):
+            return A._pick([self.P((idx[0], k)) for k in range(3)], c)
+        return sv.to_real(centred(self.tr, self.s, idx[0], int(c))) if int(c) < self.d else sv.to_frac(0.0)
+
+    def sys0(self):
+        from pyvc.libext.C20 import voro_system
+        if "0" not in self._memo:
+            self._memo["0"] = voro_system(self.box, self.P, self.N)
+        return self._memo["0"]
+
+    def sys_pm(self, i, j, sign):
+        """system with coordinate (i, j) at P + deltar (sign=+1) / P - deltar (sign=-1)"""
+        from pyvc.libext.C20 import voro_system
+        st0 = cur()
+        mark = len(st0.side)
+        st = st0.fork()
+        try:
+            with use_state(st):
+                pts = A.new_arr((self.N, 3), self.P, "float")
+                A.setitem(pts, (i, j), self.dr, aug="+")
+                if sign < 0:
+                    A.setitem(pts, (i, j), sv.mul(2, self.dr), aug="-")
+                rd = pts.reader()
+                return voro_system(self.box, rd, self.N)
+        finally:
+            del st0.side[mark:]        # the spec's own array operations leave no obligations behind
+
+    def raw(self, r, i, j):
+        """central difference of the volume of cell r with respect to coordinate j of particle i.
+        The two displaced systems are built for a SYMBOL standing for the displaced particle (the lifted system functions are
+        named by the canonical form of the system over its free symbols) and then instantiated at the term i."""
+        key = ("raw", int(j))
+        if key not in self._memo:
+            I0, R0 = sv.fresh_int("vmI"), sv.fresh_int("vmR")
+            vp, vm = self.sys_pm(I0, j, +1).VOL(R0), self.sys_pm(I0, j, -1).VOL(R0)
+            self._memo[key] = (I0, R0, sv.div(sv.div(sv.sub(vp, vm), 2), self.dr))
+        I0, R0, t = self._memo[key]
+        return sv.wrap(z3.substitute(sv.zr(t), (I0.t, sv.znum(i)), (R0.t, sv.znum(r))))
+
+    def offdiag_sum(self, r, j, upto=None):
+        """sum over the displaced particles m != r of raw(r, m, j)"""
+        from pyvc.sigma import Sum
+        return Sum(0, self.N if upto is None else upto, lambda m: sv.ite(sv.cmp("!=", m, r), lambda: self.raw(r, m, j), sv.to_frac(0.0)))
+
+    def entry_raw(self, r, c, diag_done=True):
+        """the un-normalised matrix: column c = d * i + j"""
+        d = self.d
+        i = sv.floordiv(c, d)
+        alts = []
+        for j in range(d):
+            off = self.raw(r, i, j)
+            dg = sv.neg(self.offdiag_sum(r, j)) if diag_done else sv.to_frac(0.0)
+            alts.append(sv.ite(sv.cmp("==", i, r), dg, off))
+        return A._pick(alts, sv.mod(c, d))
+
+    def entry(self, r, c):
+        return sv.div(self.entry_raw(r, c), self.sys0().VOL(r))
+
+
+def rowsum_lhs(n, k, f, S, w):
+    """sum over the displaced particles i < n of the matrix entries of one row and one displaced coordinate:
+    the self term -S/w at i = k, the off-diagonal entry f(i)/w elsewhere"""
+    from pyvc.sigma import Sum
+    return Sum(0, n, lambda i: sv.ite(sv.cmp("==", i, k), sv.div(sv.neg(S), w), lambda: sv.div(f(i), w)))
+
+
+def rowsum_rhs(n, k, f, S, w):
+    from pyvc.sigma import Sum
+    others = Sum(0, n, lambda i: sv.ite(sv.cmp("==", i, k), sv.to_frac(0.0), lambda: f(i)))
+    return sv.add(sv.ite(sv.and_(sv.cmp(">=", k, 0), sv.cmp("<", k, n)), sv.div(sv.neg(S), w), sv.to_frac(0.0)), sv.div(others, w))
+
+
+def rowsum_lemmas():
+    """induction over the number n of displaced particles, for an uninterpreted off-diagonal function f, any self term S,
+    any w != 0:  rowsum_lhs(n) = rowsum_rhs(n)"""
+    n, k = sv.integer("n_l"), sv.integer("k_l")
+    S, w = sv.real("S_l"), sv.real("w_l")
+    F = z3.Function("f_l", z3.IntSort(), z3.RealSort())
+
+    def f(i):
+        return sv.SV(F(sv.znum(i)))
+    n1 = sv.add(n, 1)
+    nz = sv.cmp("!=", w, 0)
+    return [("lemma:row-sum-split:base(n=0)", sv.implies(nz, sv.cmp("==", rowsum_lhs(0, k, f, S, w), rowsum_rhs(0, k, f, S, w)))),
+            ("lemma:row-sum-split:step(n->n+1)", sv.implies(sv.and_(nz, sv.cmp(">=", n, 0), sv.cmp("==", rowsum_lhs(n, k, f, S, w), rowsum_rhs(n, k, f, S, w))),
+                                                              sv.cmp("==", rowsum_lhs(n1, k, f, S, w), rowsum_rhs(n1, k, f, S, w))))]
+
+
+def extra_checks(tier, seed, repo):
+    from pyvc.vc import prove_lemmas
+    return {"obligations": prove_lemmas("C20", rowsum_lemmas())}
+
+
+class VolumeMatrixUnit(Unit):
+    """VolumeMatrix(snapshots, ndim, nconfig, deltar, transform_matrix, outputfile) at symbolic T, N, nconfig, deltar.
+    Callee contract of convert_configuration (proved by ConvertConfiguration); freud's Voronoi is the assumed relational contract.
+    The particle loop that fills the off-diagonal blocks is verified with a written summary (init/step obligations)."""
+    module = FN
+    qualname = "VolumeMatrix"
+    prop = "C20"
+    timeout = 30
+    summaries = CONVERT
+    loop_opts = {"const_sum_closed": True}
+
+    def cases(self):
+        return [f"d={d}/{m}/{f}" for d in (2, 3) for m in ("raw", "transformed") for f in ("nofile", "file")]
+
+    def _hints(self, W):
+        from pyvc.loops import written_summary
+        fname = f"{FN}.VolumeMatrix"
+        d = W.d
+
+        def rule(interp, s, frame, st, lo, hi, item_fn):
+            import ast
+            txt = ast.unparse(s)
+            if "Voronoi" not in txt or "matrixA" not in txt:
+                return NotImplemented
+            mA, pts = frame.env.get("matrixA"), frame.env.get("points")
+            if not (isinstance(mA, A.Arr) and isinstance(pts, A.Arr)):
+                raise sv.EngineError("the perturbation loop no longer works on local arrays `matrixA` / `points`")
+            pre_pts = st.heap[pts.sid].data
+
+            def at_matrix(k):
+                def fn(idx):
+                    r, c = idx
+                    i = sv.floordiv(c, d)
+                    return sv.ite(sv.and_(sv.cmp("<", i, k), sv.cmp("!=", i, r)), lambda: W.entry_raw(r, c, diag_done=False), sv.to_frac(0.0))
+                return fn
+
+            def at_points(k):
+                return lambda idx: pre_pts(idx)        # every displaced coordinate is moved back (in the reals, A1)
+            written_summary(interp, s, frame, st, lo, hi, item_fn, {mA.sid: at_matrix, pts.sid: at_points}, label="perturbation-loop")
+            return None
+        return {(fname, "for", "*"): rule}
+
+    def setup(self, ctx, case):
+        d = int(case[2])
+        mode, fil = case.split("/")[1], case.split("/")[2]
+        tr = Traj(ctx, d)
+        ctx.array_fact("BL", lambda s, c: z3.And(tr.BL(s, c) > 0, tr.BL(s, c) == tr.BB(s, c, 1) - tr.BB(s, c, 0)))
+        nconfig = ctx.int("nconfig")
+        ctx.assume(nconfig >= 0)
+        ctx.assume(nconfig < tr.T)
+        dr = ctx.real("deltar")
+        ctx.assume(dr > 0)
+        W = VMWorld(tr, d, nconfig, dr)
+        ctx.interp.loop_hints.update(self._hints(W))
+        snaps = tr.snapshots()
+        out = "vm.npy" if fil == "file" else ""
+        inp = dict(tr=tr, d=d, W=W, mode=mode, out=out, r=ctx.int("r"), c=ctx.int("c"), j=ctx.int("j"))
+        return [snaps], dict(ndim=d, nconfig=nconfig, deltar=dr, transform_matrix=(mode == "transformed"), outputfile=out), inp
+
+    def clause_names(self, case):
+        names = ["result:array-of-the-documented-shape", "file:saved-iff-requested-and-holds-the-returned-array", "frame:inputs-not-written"]
+        if "/raw/" in case:
+            names += ["matrix:off-diagonal=central-difference-of-cell-volume/original-volume(frame-nconfig)",
+                      "matrix:self-term=-(sum-over-the-other-displaced-particles)/original-volume",
+                      "matrix:entry(r,d*i+j)-is-the-(i,j)-entry", "matrix:rows-sum-to-zero-over-each-displaced-coordinate(lemma-over-the-contract)"]
+        return names
+
+    def ensures(self, ctx, case, inp, out):
+        tr, d, W, mode = inp["tr"], inp["d"], inp["W"], inp["mode"]
+        r, c = inp["r"], inp["c"]
+        N = tr.N
+        v = out.value
+        width = sv.mul(N, d)
+        want_shape = (N, width) if mode == "raw" else (width, width)
+        ok = isinstance(v, A.Arr) and v.ndim == 2
+        shape_goal = sv.and_(*[sv.cmp("==", x, y) for x, y in zip(v.shape, want_shape)]) if ok else False
+        yield "result:array-of-the-documented-shape", shape_goal
+        saves = [e for e in out.state.trace if e and e[0] == "np.save"]
+        if not inp["out"]:
+            yield "file:saved-iff-requested-and-holds-the-returned-array", len(saves) == 0
+        else:
+            okf = len(saves) == 1 and saves[0][1] == inp["out"] and isinstance(saves[0][2], A.Arr) and ok and saves[0][2].ndim == 2
+            if okf:
+                a = saves[0][2]
+                ix = (sv.fresh_int("fr"), sv.fresh_int("fc"))
+                inr = sv.and_(*[sv.and_(sv.cmp(">=", i, 0), sv.cmp("<", i, dd)) for i, dd in zip(ix, a.shape)])
+                yield ("file:saved-iff-requested-and-holds-the-returned-array",
+                       sv.and_(*[sv.cmp("==", x, y) for x, y in zip(a.shape, v.shape)], sv.implies(inr, sv.cmp("==", a.get(ix), v.get(ix)))))
+            else:
+                yield "file:saved-iff-requested-and-holds-the-returned-array", False
+        stores = [e for e in out.state.events if e[0] == "store" and (e[1] in out.state.origin or "input" in out.state.heap[e[1]].meta)]
+        yield "frame:inputs-not-written", not stores
+        if mode != "raw" or not ok:
+            return
+        inr = sv.and_(sv.cmp(">=", r, 0), sv.cmp("<", r, N), sv.cmp(">=", c, 0), sv.cmp("<", c, width))
+        i = sv.floordiv(c, d)
+        got = v.get((r, c))
+        yield ("matrix:off-diagonal=central-difference-of-cell-volume/original-volume(frame-nconfig)",
+               sv.implies(sv.and_(inr, sv.cmp("!=", i, r)), sv.cmp("==", got, W.entry(r, c))))
+        yield ("matrix:self-term=-(sum-over-the-other-displaced-particles)/original-volume",
+               sv.implies(sv.and_(inr, sv.cmp("==", i, r)), sv.cmp("==", got, W.entry(r, c))))
+        # rows sum to zero over each displaced coordinate j: sum_i A[r, d i + j] = 0 — on the contract's entries
+        vol = W.sys0().VOL(r)
+        ii = sv.integer("i_rs")
+        bridge, sums = [], []
+        for j in range(d):
+            S = W.offdiag_sum(r, j)
+            f = (lambda j: (lambda m: W.raw(r, m, j)))(j)
+            e_ij = sv.ite(sv.cmp("==", ii, r), sv.div(sv.neg(S), vol), sv.div(f(ii), vol))
+            bridge.append(sv.implies(sv.and_(sv.cmp(">=", ii, 0), sv.cmp("<", ii, N), sv.cmp(">=", r, 0), sv.cmp("<", r, N)),
+                                     sv.cmp("==", W.entry(r, sv.add(sv.mul(d, ii), j)), e_ij)))
+            inst = sv.cmp("==", rowsum_lhs(N, r, f, S, vol), rowsum_rhs(N, r, f, S, vol))     # instance of the lemma (n = N, k = r, w = VOL_r)
+            sums.append((inst, sv.implies(sv.and_(sv.cmp(">=", r, 0), sv.cmp("<", r, N), sv.cmp("!=", vol, 0)), sv.cmp("==", rowsum_lhs(N, r, f, S, vol), 0))))
+        yield "matrix:entry(r,d*i+j)-is-the-(i,j)-entry", sv.and_(*bridge)
+        yield ("matrix:rows-sum-to-zero-over-each-displaced-coordinate(lemma-over-the-contract)", sv.and_(*[g for _, g in sums]),
+               {"assume": [x for x, _ in sums]})
+
+    def replay(self, case, clause, model, seed):
+        return _replay_volume_matrix(case, clause, model, seed)
+
+
+def _replay_volume_matrix(case, clause, model, seed):
+    """real VolumeMatrix against an independent computation with freud itself: frame nconfig, off-diagonal central differences,
+    self term, rows summing to zero per displaced coordinate, file = returned, inputs untouched"""
+    import importlib
+    import os
+    import shutil
+    import tempfile
+
+    import numpy as np
+    M = importlib.import_module(FN)
+    RUm = importlib.import_module(RU)
+    import freud
+    d = int(case[2])
+    mode, fil = case.split("/")[1], case.split("/")[2]
+    rng = np.random.default_rng(seed + 17 * d)
+    tmp = tempfile.mkdtemp(prefix="pyvc-c20vm.")
+    n = 0
+    try:
+        for kind, N, T, nconfig in (("zero", 5, 3, 1), ("any", 6, 3, 2), ("centred", 5, 1, 0), ("sum-zero", 5, 2, 1), ("any", 7, 2, 0)):
+            n += 1
+            S = _mk_snapshots(np, RUm, rng, N, d, T, kind)
+            before = [x.positions.copy() for x in S.snapshots]
+            out = os.path.join(tmp, f"vm{n}.npy") if fil == "file" else ""
+            dr = 0.01
+            inputs = {"d": d, "N": N, "T": T, "nconfig": nconfig, "origin": kind, "transform_matrix": mode == "transformed", "outputfile": bool(out)}
+            try:
+                res = M.VolumeMatrix(S, ndim=d, nconfig=nconfig, deltar=dr, transform_matrix=(mode == "transformed"), outputfile=out)
+            except Exception as e:
+                return {"ran": True, "failed": True, "searched": n, "inputs": inputs, "detail": f"raises {type(e).__name__}: {e}"}
+            for s in range(T):
+                if not np.array_equal(S.snapshots[s].positions, before[s]):
+                    return {"ran": True, "failed": True, "searched": n, "inputs": inputs, "detail": f"the caller's positions of frame {s} were modified"}
+            want_shape = (N, N * d) if mode == "raw" else (N * d, N * d)
+            if np.asarray(res).shape != want_shape:
+                return {"ran": True, "failed": True, "searched": n, "inputs": inputs, "detail": f"result shape {np.asarray(res).shape}, expected {want_shape}"}
+            if out:
+                if not os.path.exists(out):
+                    return {"ran": True, "failed": True, "searched": n, "inputs": inputs, "detail": "no file written"}
+                if not np.array_equal(np.load(out), res):
+                    return {"ran": True, "failed": True, "searched": n, "inputs": inputs, "detail": "saved file differs from the returned array"}
+            if mode != "raw":
+                continue
+            sn = S.snapshots[nconfig]
+            pts = np.zeros((N, 3))
+            pts[:, :d] = before[nconfig] - (sn.boxbounds[:, 0] + sn.boxlength / 2)
+            box = freud.box.Box.from_box(sn.boxlength)
+            vol0 = freud.locality.Voronoi().compute((box, pts)).volumes.copy()
+            want = np.zeros((N, N * d))
+            for i in range(N):
+                for j in range(d):
+                    p1 = pts.copy(); p1[i, j] += dr
+                    p2 = pts.copy(); p2[i, j] -= dr
+                    v1 = freud.locality.Voronoi().compute((box, p1)).volumes
+                    v2 = freud.locality.Voronoi().compute((box, p2)).volumes
+                    col = (v1 - v2) / 2 / dr
+                    col[i] = 0.0
+                    want[:, d * i + j] = col
+            for i in range(N):
+                for j in range(d):
+                    want[i, d * i + j] = -sum(want[i, d * m + j] for m in range(N) if m != i)
+            want /= vol0[:, None]
+            if not np.allclose(res, want, rtol=1e-6, atol=1e-8):
+                bad = np.argwhere(~np.isclose(res, want, rtol=1e-6, atol=1e-8))[0]
+                return {"ran": True, "failed": True, "searched": n, "inputs": inputs,
+                        "detail": f"entry {bad.tolist()}: {res[tuple(bad)]} vs independent computation on frame {nconfig}: {want[tuple(bad)]}"}
+            sums = np.array([[res[r, j::d].sum() for j in range(d)] for r in range(N)])
+            if not np.allclose(sums, 0.0, atol=1e-8):
+                return {"ran": True, "failed": True, "searched": n, "inputs": inputs, "detail": f"rows do not sum to zero over a displaced coordinate: max |sum| = {np.abs(sums).max()}"}
+        return {"ran": True, "failed": False, "searched": n}
+    finally:
+        shutil.rmtree(tmp, ignore_errors=True)
+
+
+UNITS = [ConvertConfiguration(), CalNeighbors(), VolumeMatrixUnit()]
 
 MANIFEST = {
-    "text": "TBD",
-    "note": "TBD",
+    "text": "convert_configuration, cal_neighbors and VolumeMatrix (real ASTs, re-read every run) at symbolic frame number T, particle number N, box "
+            "origin and lengths, d in {2,3}. convert_configuration: one box and one FRESH (N,3) point set per frame in frame order, coordinates "
+            "positions - (lo + L/2) for any origin, zero z column in 2-D, box lengths of the frame, inputs not written. cal_neighbors (callee contract of "
+            "convert_configuration, assumed relational contract of freud's Voronoi): three closed files with the documented names; per frame a header "
+            "and one row per particle in id order `id cn v_1..v_cn` with id = i+1, cn = number of listed neighbours = number of listed weights = the "
+            "count of the overall file; listed ids = tessellation neighbours + 1, weights and volumes of the tessellation of the centred frame "
+            "(6 decimals); the written relation is symmetric with equal weights; the neighbour and weight files satisfy the precondition of "
+            "read_neighbors (C05). VolumeMatrix at symbolic nconfig and deltar > 0: uses frame nconfig, N = its particle number, result shape, "
+            "off-diagonal entries = central differences of the cell volumes / original volume, self terms = -(sum over the other displaced "
+            "particles) / original volume (written loop summary with init/step obligations), rows sum to zero over each displaced coordinate (induction "
+            "lemma over the contract), file saved iff requested and equal to the returned array, inputs not written.",
+    "note": "floats as reals (A1); freud's tessellation is an ASSUMED relational contract (pyvc/libext/C20.py): uninterpreted CN/NBR/WGT/REV/VOL "
+            "functions of the system named by the canonical piecewise form of its coordinates, with layout, symmetry, positivity and volume-sum "
+            "facts; np.unique on the first column of a freud neighbour list assumed in closed form; token/file model of pyvc/text.py; np.linalg.inv "
+            "of a symbolic-size matrix opaque (transformed matrix: shape and file clause only); bounded numerical confirmation of the assumed "
+            "freud facts on seeded configurations is reported separately and not counted.",
 }
